@@ -85,6 +85,10 @@ type LeaderController interface {
 type leaderController struct {
 	sync.RWMutex
 
+	// writeOrder serializes offset allocation with the WAL append, so that
+	// concurrent writers append in the same order as their offsets were assigned
+	writeOrder sync.Mutex
+
 	namespace         string
 	shardId           int64
 	status            proto.ServingStatus
@@ -791,6 +795,8 @@ func (lc *leaderController) writeBlock(ctx context.Context, requestSupplier func
 }
 
 func (lc *leaderController) write(ctx context.Context, requestSupplier func(offset int64) *proto.WriteRequest, cb concurrent.Callback[*proto.WriteResponse]) {
+	lc.writeOrder.Lock()
+	defer lc.writeOrder.Unlock()
 	timer := lc.writeLatencyHisto.Timer()
 	lc.Lock()
 	if err := checkStatusIsLeader(lc.status); err != nil {
